@@ -19,6 +19,7 @@
 #include <gnu_gama/local/test_linearization_visitor.h>
 #include <gnu_gama/local/language.h>
 #include <fstream>
+#include <cstring>
 #include <sys/mman.h>
 #include <sys/wait.h>
 #include <unistd.h>
@@ -46,6 +47,7 @@ struct Problem {
   std::string name;
   int nullity = 0;
   std::string gkf;        // LocalNetwork problems: input text
+  std::string gkf_dh0; int dh_index = -1; double dh_from = 0, dh_to = 0;    // the same document with the heights of the first observation that has any removed (independent reference for N_DH)
   bool corr = false;      // Adj problems: one banded covariance block instead of unit weights
 };
 
@@ -278,11 +280,12 @@ struct NetTarget : Target {
   int cfg_dh = 0;      // 0 = instrument / target heights as in the input, 1 = those of the first observation that has any set to zero
   GNU_gama::local::Observation* dh_obs = nullptr; double dh_from = 0, dh_to = 0;
   bool orig_constrained = false, last_constrained = false;
-  NetTarget(const Problem& pp) : Target(pp) {
+  NetTarget(const Problem& pp, int dh_variant = 0) : Target(pp) {
     net.reset(new LocalNetwork);
+    const std::string& doc = (dh_variant && !p.gkf_dh0.empty()) ? p.gkf_dh0 : p.gkf;
     {
       GNU_gama::local::GKFparser gkf(*net);
-      gkf.xml_parse(p.gkf.c_str(), (int)p.gkf.size(), 1);
+      gkf.xml_parse(doc.c_str(), (int)doc.size(), 1);
     }
     net->set_algorithm("envelope");
     net->remove_inconsistency();
@@ -291,6 +294,11 @@ struct NetTarget : Target {
     GNU_gama::local::refine_obsdh_reductions(net.get());
     cfg_alg = 0; cfg_minx = 0;
     cfg_m0 = net->m_0_aposteriori() ? 1 : 0;
+    if (dh_variant && !p.gkf_dh0.empty()) {
+      // built from the document without these heights: the object is in configuration dh=1 without any setter call
+      int k = 0; for (auto* c : net->OD.clusters) for (auto* ob : c->observation_list) { if (k == p.dh_index) dh_obs = ob; k++; }
+      dh_from = p.dh_from; dh_to = p.dh_to; cfg_dh = 1;
+    } else
     for (auto* c : net->OD.clusters) { for (auto* ob : c->observation_list) if (!dh_obs && (ob->from_dh() != 0 || ob->to_dh() != 0)) { dh_obs = ob; dh_from = ob->from_dh(); dh_to = ob->to_dh(); } }
     for (auto i = net->PD.begin(); i != net->PD.end(); ++i) if (i->second.free_xy()) {
       if (pt_id.empty()) { pt_id = i->first.str(); orig_constrained = i->second.constrained_xy(); }
@@ -467,8 +475,8 @@ static std::vector<Op> make_ops(const Problem& p, int kind) {
 // shared memory breadcrumb so that the parent can attribute a crash
 static char* crumb = nullptr;
 
-static std::unique_ptr<Target> fresh(const Problem& p, int kind, int adj_subset) {
-  if (kind == 5) return std::unique_ptr<Target>(new NetTarget(p));
+static std::unique_ptr<Target> fresh(const Problem& p, int kind, int adj_subset, int dh_variant = 0) {
+  if (kind == 5) return std::unique_ptr<Target>(new NetTarget(p, dh_variant));
   if (kind == 4) return std::unique_ptr<Target>(new AdjTarget(p, adj_subset));
   return std::unique_ptr<Target>(new SolverTarget(p, kind));
 }
@@ -537,7 +545,7 @@ struct Explorer {
     auto& mp = solved_first ? ref : first;
     auto it = mp.find(k);
     if (it != mp.end()) return it->second;
-    auto t = fresh(p, kind, adj_subset);
+    auto t = fresh(p, kind, adj_subset, (kind == 5 && cfg.size() > 5 && cfg[5] == 1) ? 1 : 0);
     config_ops(*t, cfg);
     if (solved_first) { for (auto& o : ops) if (o.kind == K_UNK || o.kind == K_ADJ_X || o.kind == N_SOLVE) { t->apply(o); break; } }
     Answer a;
@@ -699,7 +707,19 @@ static std::vector<Problem> problems() {
     if (!in) continue;
     std::stringstream ss; ss << in.rdbuf();
     Problem p; p.name = nm; p.gkf = ss.str();
+    {
+      // variant document: the first element with from_dh / to_dh loses both attributes
+      size_t a = p.gkf.find(" from_dh=\""), b2 = p.gkf.find(" to_dh=\"");
+      size_t first = std::min(a, b2);
+      if (first != std::string::npos) {
+        size_t e0 = p.gkf.rfind('<', first), e1 = p.gkf.find('>', first);
+        std::string el = p.gkf.substr(e0, e1 - e0 + 1), el2 = el;
+        for (const char* at : {" from_dh=\"", " to_dh=\""}) { size_t q = el2.find(at); if (q != std::string::npos) { size_t r = el2.find('"', q + strlen(at)); el2.erase(q, r - q + 1); } }
+        p.gkf_dh0 = p.gkf.substr(0, e0) + el2 + p.gkf.substr(e1 + 1);
+      }
+    }
     NetTarget t(p);
+    if (t.dh_obs) { int k = 0; for (auto* c : t.net->OD.clusters) for (auto* ob : c->observation_list) { if (ob == t.dh_obs) p.dh_index = k; k++; } p.dh_from = t.dh_from; p.dh_to = t.dh_to; } else p.gkf_dh0.clear();
     p.n = t.net->unknowns_count(); p.m = t.net->observations_count();
     t.net->solve(); p.nullity = t.net->null_space();
     P.push_back(p);
